@@ -331,7 +331,7 @@ def _is_number(c):
 def conf(sec, f):
     """C04's `Conf sec f` for fields parsed by the reader (they are stripped already)"""
     name, unit, value, descr = f
-    if not name or name != name.strip() or "." in name or ":" in name:
+    if not name or name != name.strip() or "." in name or ":" in name or name[0] in "#~":
         return False
     if any(c.isspace() for c in unit) or ".." in unit or unit[:1] == "." or unit[-1:] == ".":
         return False
@@ -450,7 +450,7 @@ def candidates(rng, doc):
         if wrapped and dlm == "SPACE" and rows and len(quote_free) == len(rows):
             words = [x for _, l in rows for x in l.split()]
             d = st["declared"]
-            if not any(x.startswith("#") for x in words) and len(words) % d == 0 and \
+            if not any(x.startswith("#") or x.startswith("~") for x in words) and len(words) % d == 0 and \
                     (HYPHEN_REWRAP or all(hyphen_neutral(x) for x in words)):
                 r = rng.random()
                 if r < 0.25:
